@@ -132,15 +132,35 @@ func Main(h Harness) {
 	exhaustive := true
 	racesChecked := 0
 
+	// level-major order: every scenario at bound 0, then every scenario at bound 1, ... so that a time
+	// budget cuts the deepest bounds of all scenarios instead of starving the later scenarios
+	stats = make([]scStat, len(scenarios))
+	scStates := make([]map[uint64]struct{}, len(scenarios))
+	scOutcomes := make([]map[string]int, len(scenarios))
+	stopped := make([]bool, len(scenarios))
+	maxLevels := 0
 	for si, sc := range scenarios {
-		st := scStat{Name: sc.Name}
-		states := map[uint64]struct{}{}
-		outcomes := map[string]int{}
-		for li, lv := range sc.Levels {
+		stats[si] = scStat{Name: sc.Name}
+		scStates[si] = map[uint64]struct{}{}
+		scOutcomes[si] = map[string]int{}
+		if len(sc.Levels) > maxLevels {
+			maxLevels = len(sc.Levels)
+		}
+	}
+	for li := 0; li < maxLevels; li++ {
+		for si, sc := range scenarios {
+			if li >= len(sc.Levels) || stopped[si] {
+				continue
+			}
+			st := &stats[si]
+			states := scStates[si]
+			outcomes := scOutcomes[si]
+			lv := sc.Levels[li]
 			if time.Now().After(deadline) {
 				st.Capped = lv.String() + " (not started: time budget)"
 				exhaustive = false
-				break
+				stopped[si] = true
+				continue
 			}
 			// root execution in this process to obtain the subtrees
 			var rootFindings []foundViolation
@@ -217,24 +237,27 @@ func Main(h Harness) {
 			if capped {
 				st.Capped = lv.String() + " (time budget reached during this level)"
 				exhaustive = false
-				break
+				stopped[si] = true
+				continue
 			}
 			st.Completed = append(st.Completed, fmt.Sprintf("%s: %d executions", lv, levelExec))
 			// stop deepening a scenario as soon as a new (not ledgered) violation is known: the first
 			// counter-example has the fewest deviations
 			if len(rep.Violations()) > 0 && hasUnknown(rep) {
-				break
+				stopped[si] = true
 			}
 		}
-		st.States = len(states)
-		st.Outcomes = len(outcomes)
-		for k, n := range outcomes {
+	}
+	for si, sc := range scenarios {
+		st := &stats[si]
+		st.States = len(scStates[si])
+		st.Outcomes = len(scOutcomes[si])
+		for k, n := range scOutcomes[si] {
 			allOutcomes[sc.Name+": "+k] += n
 		}
 		totalExec += st.Executions
 		totalTrans += st.Transitions
 		totalStates += st.States
-		stats = append(stats, st)
 	}
 	outKeys := make([]string, 0, len(allOutcomes))
 	for k := range allOutcomes {
